@@ -45,7 +45,7 @@ Fetch ==
 
 Printed ==
     /\ More /\ E.e = "print" /\ pc < Len(m.pr)
-    /\ E.text = m.pr[pc + 1].text /\ (m.pr[pc + 1].kind # "" => E.kind = m.pr[pc + 1].kind)
+    /\ E.text = m.pr[pc + 1].text /\ (m.pr[pc + 1].kind # "" => E.kind \in {m.pr[pc + 1].kind, "Optional<" \o m.pr[pc + 1].kind \o ">"})   \* the machine's optionals are flat
     /\ pc' = pc + 1 /\ l' = l + 1 /\ UNCHANGED <<t, m>>
 
 TraceNext == Fetch \/ Printed
